@@ -141,3 +141,12 @@ ITEMS += [
          ensures=[('only_untagged_str_or_unknown', 'r == (*self is None || *self is String || *self is Other)')],
          canaries=['only_untagged_str_or_unknown']),
 ]
+# ---- the tag table (C06): a LazyLock<BTreeMap> lookup, outside the verifier's subset; contract assumed in the deductive part (the callers only
+# use the resulting kind), bounded-only harness on the real text of the whole file in every run, built with the parser crate (F32)
+ITEMS += [
+    dict(src='src/tags.rs', path='impl SfTag/fn from_optional_cow', trusted=True, props=[], bounded_props=['C06', 'C01'], bounded_only=True,
+         rewrites=[(r'&Option<Cow<Tag>>', "&Option<CowTag<'_>>", 1, 'R6')],
+         bounded=dict(harness='bounded/tag_table.rs', items=[('src/tags.rs', '*')], subs=[],
+                      cargo_deps={'saphyr-parser': '{ package = "saphyr-parser-bw", version = "0.0.608" }'}),
+         ensures=[('C06:a_core_schema_tag_has_its_kind_however_it_is_spelled_and_a_foreign_tag_has_none', 'true')]),
+]
